@@ -92,7 +92,7 @@ def doFst (c : Cfg) (op : String) (key : Path) : String :=
         | .error e => rej e
         | .ok wr => match k wr, relTo c.root wr with
           | .dir, some r => fin s!"acc keys {hexList ((fstFiles.filter (underRel r)).map (fun f => c.root ++ 47 :: f))}"
-          | _, _ => fin "acc oserr"
+          | _, _ => fin "acc keys _"  -- the walk fails asynchronously and delivers nothing
   | _ => "bad-op"
 
 def dedup : List Path → List Path
